@@ -193,11 +193,11 @@ fn sswu_check<S: Suite>(ctx: &Ctx, ta: &TAlpha<S>, min_classes: usize, per_class
 }
 
 pub fn run(ctx: &Ctx) -> (&'static str, &'static str) {
-    let pc = ctx.tier.pick(8, 24);
-    let t1 = build_g1(ctx, pc, ctx.tier.pick(64, 512));
+    let pc = ctx.tier.pick(8, 64);
+    let t1 = build_g1(ctx, pc, ctx.tier.pick(64, 2048));
     sswu_check::<RG1>(ctx, &t1, 4, pc);
     ctx.require(t1.class.iter().any(|c| c.starts_with("exceptional")), "G1: exceptional SSWU inputs missing");
-    let t2 = build_g2(ctx, pc, ctx.tier.pick(64, 512));
+    let t2 = build_g2(ctx, pc, ctx.tier.pick(64, 2048));
     sswu_check::<RG2>(ctx, &t2, 16, pc);
     // addition chains against generic exponentiation
     let qq = q();
@@ -241,6 +241,6 @@ pub fn run(ctx: &Ctx) -> (&'static str, &'static str) {
     ctx.assume("RFC 9380 constants A', B', Z transcribed into the reference model; 'first candidate whose right-hand side is a square' and sgn0 evaluated on big integers");
     (
         "exploration",
-        "t alphabet: 0, +-1, +-2, (q+-1)/2, the exceptional roots +-sqrt(-1/Z) (G1), Fq-embedded and purely imaginary elements (G2), and >= 8 (quick) / 24 (thorough) members of EVERY class of the optimized algorithm's case split, computed by the reference model: G1 (which candidate is square) x sgn0(t); G2 the 8 values of g(x1)^((q^2-1)/8) in mu_8 (4 root-of-unity cases when g(x1) is square, 4 eta cases otherwise) x sgn0(t); the run is a machinery failure if a class is short; plus a seeded tail; each t compared with RFC map_to_curve_simple_swu evaluated on big integers",
+        "t alphabet: 0, +-1, +-2, (q+-1)/2, the exceptional roots +-sqrt(-1/Z) (G1), Fq-embedded and purely imaginary elements (G2), and >= 8 (quick) / 64 (thorough) members of EVERY class of the optimized algorithm's case split, computed by the reference model: G1 (which candidate is square) x sgn0(t); G2 the 8 values of g(x1)^((q^2-1)/8) in mu_8 (4 root-of-unity cases when g(x1) is square, 4 eta cases otherwise) x sgn0(t); the run is a machinery failure if a class is short; plus a seeded tail; each t compared with RFC map_to_curve_simple_swu evaluated on big integers",
     )
 }
